@@ -311,6 +311,7 @@ def full_range_failures(fb, paths, pos_den_only=False):
     pos_den_only: restrict ratio operands to positive denominators (when that invariant is established)."""
     failing = {}
     lo, hi = interval.I32
+    full_range_failures.visited = set()           # every function an obligation was met in (helpers are inlined by the interpreter)
     for opn, path in sorted(paths.items()):
         f = fb.find(path)
         for label, args, allpos in _cases(fb, f, opn, lo, hi):
@@ -323,6 +324,7 @@ def full_range_failures(fb, paths, pos_den_only=False):
                 failing.setdefault((f.name, "analysis"), (label, f.span))
                 continue
             checked_fns = {o[0] for o in it.obligations if o[2] in ("Overflow", "OverflowNeg")}
+            full_range_failures.visited |= {o[0] for o in it.obligations}
             for (fn, blk, kind, op, ok, span) in it.obligations:
                 if kind == "Bare" and fn in checked_fns:
                     continue  # checked build: the bare operator sits behind its overflow assert
@@ -332,6 +334,7 @@ def full_range_failures(fb, paths, pos_den_only=False):
     return failing
 
 
+full_range_failures.visited = set()
 _GRID = {}
 
 
@@ -403,6 +406,7 @@ def range_and_sign(ctx, fb, census=True):
                                     (Bc[0] + ("/" + Bc[1] if Bc[1] else "") + (":" + Bc[3] if Bc[3] else "")) if Bc else "")
             n_obl = 0
             checked_fns = {o[0] for o in it.obligations if o[2] in ("Overflow", "OverflowNeg")}
+            full_range_failures.visited |= {o[0] for o in it.obligations}
             for (fn, blk, kind, op, ok, span) in it.obligations:
                 if kind == "Bare" and fn in checked_fns:
                     continue
